@@ -95,19 +95,35 @@ def close():
         _pool = None
 
 
-def discharge(obs, timeout_ms=20000, seed=0, cross=False, want_model=True):
+def discharge(obs, timeout_ms=20000, seed=0, cross=False, want_model=True, fallback=True):
     """Solve every obligation: result in ob.result ('unsat' = discharged), ob.backend, ob.time."""
     if not obs:
         return
     texts = [ob.smt2() for ob in obs]
     p = pool()
-    jobs = [(i, t, timeout_ms, seed, want_model) for i, t in enumerate(texts)]
+    # pass 1: short budget for everything (most obligations take milliseconds)
+    first = min(timeout_ms, 5000)
+    jobs = [(i, t, first, seed, want_model) for i, t in enumerate(texts)]
     for idx, res, dt, model, reason in p.imap_unordered(_solve_z3, jobs, chunksize=1):
         ob = obs[idx]
         ob.result, ob.time, ob.model, ob.backend = res, dt, model, 'z3-5.1.0'
         ob.reason = reason
+    # pass 2: the slow ones again with the full budget as a small portfolio of random seeds (quantifier
+    # instantiation order is seed dependent; any member answering unsat / sat decides)
+    slow = [i for i, ob in enumerate(obs) if ob.result not in ('unsat', 'sat')]
+    if slow and timeout_ms > first:
+        seeds = [seed, seed + 101, seed + 202, seed + 303]
+        jobs = [(i * 10 + k, texts[i], timeout_ms, sd, want_model) for i in slow for k, sd in enumerate(seeds)]
+        for code, res, dt, model, reason in p.imap_unordered(_solve_z3, jobs, chunksize=1):
+            ob = obs[code // 10]
+            if res in ('unsat', 'sat') and ob.result not in ('unsat', 'sat'):
+                ob.result, ob.model, ob.backend, ob.reason = res, model, 'z3-5.1.0', reason
+                ob.time += dt
+                ob.meta['portfolio_seed'] = seeds[code % 10]
+            elif ob.result not in ('unsat', 'sat'):
+                ob.reason = reason
     # unknowns -> cvc5, then z3 4.8.12
-    pending = [i for i, ob in enumerate(obs) if ob.result not in ('unsat', 'sat')]
+    pending = [i for i, ob in enumerate(obs) if ob.result not in ('unsat', 'sat')] if fallback else []
     if pending:
         for idx, res, dt in p.imap_unordered(_solve_cvc5, [(i, texts[i], timeout_ms) for i in pending]):
             ob = obs[idx]
